@@ -19,7 +19,7 @@ EXPLANATION = (
     "partitioner, NUMA hints, the shared low-priority queue.")
 ASSUMPTIONS = ["thread_pool_base::create_work is implemented by scheduled_thread_pool only", "hints are honoured by the queue selection decided in C01.R7/C19.R4"]
 THOROUGH_CONFIGS = [["-UNDEBUG", "-DPIKA_DEBUG"]]
-FLOORS = {"C10.R1": 2, "C10.R2": 5, "C10.R3": 4, "C10.R4": 8, "C10.R5": 8, "C10.R6": 4}
+FLOORS = {"C10.R1": 2, "C10.R2": 5, "C10.R3": 4, "C10.R4": 8, "C10.R5": 8, "C10.R6": 4, "C10.R7": 1}
 
 SETV = "pika::execution::experimental::set_value"
 SETE = "pika::execution::experimental::set_error"
@@ -53,6 +53,8 @@ def descendants(facts_, fn):
 def run(rep, tier):
     rep.rule("C10.R1", "K6: schedule's value completion only inside the callable given to execute / std::thread; start() itself completes only with set_error in the handler")
     rep.rule("C10.R2", "K8: execute -> register_work(data, pool_); pool create_work/create_thread pass sched_.get(); create_work creates on the given scheduler")
+    rep.rule("C10.R7", "K8 (configuration vs. policy): the static-priority scheduler is created with one high-priority queue per worker - boosted re-queues go to queue "
+             "(worker % number of high-priority queues), so fewer queues than workers move a hinted task to another worker")
     rep.rule("C10.R3", "K6: schedule_from completes downstream with values only from scheduler_sender_receiver::set_value")
     rep.rule("C10.R4", "K7/K6: static policies mask stealing; cross-queue access only under enable_stealing")
     rep.rule("C10.R6", "K6 (who may advertise a completion scheduler): a sender adaptor forwards its predecessor's environment unchanged only if its receiver completes downstream inside the predecessor's completion; an adaptor whose completion members start another operation (let_value, let_error: the operation returned by the user's callable; schedule_from: the scheduler's) completes wherever that operation completes and must not advertise the predecessor's completion scheduler (bulk's pool customisation trusts it)")
@@ -429,6 +431,42 @@ def run(rep, tier):
                     "%s records %s as the task's last worker: resume paths use the recorded number as a queue index local to the task's pool - a number from another numbering "
                     "(e.g. the runtime-global worker number, which differs from the local one in every pool but the first) re-queues a resumed, hinted task on another worker of a static pool"
                     % (f.qname.rsplit("::", 1)[-1], T(a)))
+
+    # ---- R7: under a static policy every worker owns a high-priority queue.  The priority schedulers re-queue a task
+    # that yields with boosted priority (yield_k / pending_boost - normal-priority tasks included) on high-priority queue
+    # (worker % number of high-priority queues) and only the first that many workers poll one: with fewer queues than
+    # workers such a task is handed to another worker.  Stealing policies may do that; the static-priority policy must
+    # be created with as many high-priority queues as workers, whatever pika.thread_queue.high_priority_queues says.
+    TMF = facts(rep, lib("thread_manager", "src/thread_manager.cpp"), [r"^pika::threads::detail::thread_manager::create_pools$"])
+    cp = [f for f in TMF.find(r"thread_manager::create_pools$") if f.parent == -1]
+    if len(cp) != 1:
+        raise AnalysisBroken("thread_manager::create_pools not found")
+    cp = cp[0]
+    from engine.kinds import derives_from
+    # the init-parameter object of the static-priority scheduler is the one that carries its description string
+    inits = [(b, i, e) for b, i, e in cp.all_events() if e.get("k") in ("ctor", "construct") and "init_parameter" in str(e.get("rec", "")) + str(e.get("type", "")) and
+             any("static_priority" in l_.get("s", "") for l_ in subexprs(e.get("args", []), lambda y: isinstance(y, dict) and y.get("k") == "lit" and "s" in y))]
+    if not inits:
+        raise AnalysisBroken("create_pools: construction of the static_priority scheduler's init parameters not found")
+    from engine.kinds import reaching_init
+    for b, i, e in inits:
+        a = e.get("args") or []
+        if len(a) < 3:
+            raise AnalysisBroken("create_pools: static_priority init parameters have %d arguments" % len(a))
+        # the switch cases reuse local names: take the definition that reaches this construction
+        src = a[2]
+        if strip(src).get("k") == "var":
+            ri = reaching_init(cp, strip(src)["name"], (b, i))
+            if ri is not None:
+                src = ri
+        from_cfg = "pika.thread_queue.high_priority_queues" in T(src) or "get_entry_as(" in T(src)
+        from_threads = "num_threads_" in T(src)
+        if from_threads and not from_cfg:
+            rep.ok("C10.R7", cp, "the static-priority scheduler gets one high-priority queue per worker (%s)" % T(a[2]))
+        else:
+            rep.bad("C10.R7", cp, loc_of(e), "static-pool-fewer-hp-queues", "the static-priority scheduler is created with %s high-priority queues, a number taken from the configuration "
+                    "(pika.thread_queue.high_priority_queues / --pika:high-priority-threads): with fewer queues than workers a hinted task that yields with boosted priority (yield_k, spinning "
+                    "on a lock) is re-queued on high-priority queue (worker %% queues) and runs its next phase on another worker" % T(a[2]))
 
     # ---- R6: environment forwarding
     AL = facts(rep, driver("c03_algos.cpp"), [r"^pika::\w+_detail::"])
